@@ -31,9 +31,19 @@ func genC12() *rapid.Generator[*Spec] {
 		nf := x.intn(1, 5, "nfields")
 		// field types: fresh named types of assorted shapes
 		var ftypes []*Type
+		usedAny := false
 		for i := 0; i < nf; i++ {
 			name := fmt.Sprintf("F%dT", i)
-			switch x.pick([]string{"struct", "struct", "defint", "defstr", "ptr", "slice", "defslice", "iface"}, "ftype") {
+			switch x.pick([]string{"struct", "struct", "defint", "defstr", "ptr", "slice", "defslice", "iface", "emptyiface", "emptyiface"}, "ftype") {
+			case "emptyiface":
+				// interface{} itself (once) or a defined empty interface: *F is assignable to F
+				if !usedAny && x.pct(50, "anyitself") {
+					usedAny = true
+					ftypes = append(ftypes, &Type{K: "ifacelit"})
+				} else {
+					s.Decls = append(s.Decls, Decl{Pkg: spkg, Name: name, Form: "iface"})
+					ftypes = append(ftypes, Named(len(s.Decls)-1))
+				}
 			case "struct":
 				ftypes = append(ftypes, Named(addFreshStruct(s, spkg, name)))
 			case "defint":
